@@ -108,14 +108,20 @@ def judge(case):
                 nt = (str(case["text"]), str(case["bg"]), large, very, mode, show, save)
         # ---- bulk save_report ------------------------------------------------------------------------------
         if case.get("bulk_save") is not None:
-            entries = [(t, b, large)] * case["bulk_save"]
+            n_bulk = case["bulk_save"]
+            filler = []
+            if n_bulk > 3:
+                # a long report: the entry once, then an already readable pair many times (cheap to process)
+                filler = [("#000000", "#ffffff")] * (n_bulk - 1)
+                filler_plain = make_readable_bulk(filler[:1], mode=mode, very_readable=very)
+            entries = [(t, b, large)] + filler if filler else [(t, b, large)] * n_bulk
             with Capture() as cap:
                 with Audit() as aud:
                     try:
                         out = make_readable_bulk(entries, mode=mode, very_readable=very, save_report=True)
                     except Exception as e:
                         raise Violation("bulk-report-raises:" + exc_bucket(e), f"make_readable_bulk(save_report=True) raised {e!r}; {optim.describe(case)}")
-            want_out = bulk_plain * case["bulk_save"]
+            want_out = bulk_plain + filler_plain * len(filler) if filler else bulk_plain * n_bulk
             if out != want_out:
                 raise Violation("bulk-report-changes-result", f"bulk with save_report=True gives {out!r}, without {want_out!r}; {optim.describe(case)}")
             files = sorted(os.listdir(sc.path))
@@ -160,6 +166,8 @@ def strategy(draw):
     case["save"] = draw(st.booleans())
     if draw(st.integers(0, 5)) == 0:
         case["bulk_save"] = draw(st.sampled_from([0, 1, 2, 3]))
+        if draw(st.integers(0, 19)) == 0:
+            case["bulk_save"] = draw(st.sampled_from([201, 260]))  # a long report is still ONE documented file
     return case
 
 
